@@ -32,6 +32,8 @@ pub const SMALL_NAMES: &[&str] = &[
     "e",
     // differs from the hot name "a.txt" by an embedded space only (the space is dropped from the alias, lossily)
     "a .txt",
+    // differs from the hot name "a.txt" by a fourth extension character only (the alias keeps three, lossily)
+    "a.txts",
     "a:b",
     "",
 ];
